@@ -156,7 +156,7 @@ func (e *env) typeOf(x ast.Expr) typ {
 		die(t.Pos(), "selector %s", t.Sel.Name)
 	case *ast.BinaryExpr:
 		switch t.Op {
-		case token.ADD:
+		case token.ADD, token.SUB:
 			lt := e.typeOf(t.X)
 			if lt.kind == "lit" {
 				return e.typeOf(t.Y)
@@ -290,6 +290,8 @@ func (e *env) expr(x ast.Expr, want typ) string {
 		switch t.Op {
 		case token.ADD:
 			return "(" + l + " + " + r + ")"
+		case token.SUB:
+			return "(" + l + " - " + r + ")" // modular, as in Go
 		case token.LSS:
 			return "decide (" + l + " < " + r + ")"
 		case token.LEQ:
